@@ -137,3 +137,8 @@ Definition C11_slerp_stmt : Prop :=
       sqrt (dotn 3 r r) = Rabs (sqrt (dotn 3 u u) + t * (sqrt (dotn 3 v v) - sqrt (dotn 3 u u))) /\
       (t = 0 -> forall i, (i < 3)%nat -> r i = u i) /\ (t = 1 -> forall i, (i < 3)%nat -> r i = v i)) /\
     rrun k a p_vec3_trait_slerp_unclamped = rrun k a p_vec3_slerp_unclamped.
+
+(** Vec3::slerp is slerp_unclamped at the factor clamped to [0,1] *)
+Definition upd (a : nat -> R) (i : nat) (x : R) : nat -> R := fun j => if Nat.eqb j i then x else a j.
+Definition C11_slerp_clamped_stmt : Prop :=
+  forall k a, rrun k a p_vec3_slerp = rrun k (upd a 6 (Rmin (Rmax (a 6%nat) 0) 1)) p_vec3_slerp_unclamped.
